@@ -46,7 +46,11 @@ def check_C07(ctx):
                         '(stated deviation, DESIGN 11); the specification supplies the lock protocol, the call mixes and the trace acceptance',
                         'Close concurrent with other calls is out of scope (as the property says)',
                         'schedules are sampled']
-    tlc_mc(ctx, 'KevoConc', 'KevoConc.cfg' if ctx.quick() else 'KevoConc_thorough.cfg', timeout=900 if ctx.quick() else 2400)
+    tlc_mc(ctx, 'KevoConc', 'KevoConc.cfg', timeout=900)
+    if not ctx.quick():
+        # four concurrent callers: safety only (NoStuck = no reachable state in which a caller can never proceed); the temporal
+        # property EveryCallReturns is checked with three callers above (with four its liveness graph does not finish in 40 min)
+        tlc_mc(ctx, 'KevoConc', 'KevoConc_thorough.cfg', timeout=2400)
     p = ctx.run_kvh(['conc-entrypoints'], race=True)
     un = json.loads(p.stdout.strip().splitlines()[-1])['unexercised']
     un = [u for u in un if u not in ('CompactionManager.ForcePreserveTombstone',)]      # test-only hook, documented as such in the code
